@@ -85,10 +85,10 @@ def build_node(A, conns, extra_flow_conns=()):
     return node, ctype
 
 
-def clause(A, l, r, inner):
+def clause(A, l, r, inner, flags=None):
     c = A.new("ConnectClause", left=A.ref(l), right=A.ref(r))
-    c.fields["__left_inner"] = inner[l]
-    c.fields["__right_inner"] = inner[r]
+    c.fields["__left_inner"] = inner[l] if flags is None else flags[0]
+    c.fields["__right_inner"] = inner[r] if flags is None else flags[1]
     return c
 
 
@@ -132,8 +132,10 @@ def reference(sem, conns, clauses, inner, all_flow_conns):
         while parent[x] != x:
             x = parent[x]
         return x
-    for l, r in clauses:
-        a, b = find((l, inner[l])), find((r, inner[r]))
+    for cl in clauses:
+        l, r = cl[0], cl[1]
+        fl, fr = (inner[l], inner[r]) if len(cl) == 2 else (cl[2], cl[3])
+        a, b = find((l, fl)), find((r, fr))
         if a != b:
             parent[b] = a
     sets = {}
@@ -192,7 +194,7 @@ def run_graph(eng, label, conns, clauses, inner, lonely):
     install_contracts(eng, A, ctype)
     plain = A.new("Equation", left=A.ref("t"), right=A.prim(1))
     plain2 = A.new("Equation", left=A.ref("u"), right=A.prim(2))
-    eqs = [plain] + [clause(A, l, r, inner) for l, r in clauses] + [plain2]
+    eqs = [plain] + [clause(A, cl[0], cl[1], inner, None if len(cl) == 2 else (cl[2], cl[3])) for cl in clauses] + [plain2]
     node.fields["equations"] = VList(eqs)
     f = eng.find_function(TREE, "expand_connectors")
     eng.call(f, [node], {})
@@ -201,7 +203,7 @@ def run_graph(eng, label, conns, clauses, inner, lonely):
     emitted = [sem.eq(e) for e in out if e is not plain and e is not plain2]
     ref, sets = reference(sem, conns, clauses, inner, list(conns) + list(lonely))
     E, R = z3.And(emitted), z3.And(ref)
-    info = dict(graph=label, clauses=["connect(%s, %s)" % c for c in clauses], outside=[c for c in conns if not inner[c]])
+    info = dict(graph=label, clauses=["connect(%s, %s)" % (c[0], c[1]) for c in clauses], outside=[c for c in conns if not inner[c]])
     # (P) same solutions as the connection-set semantics, for all real values of the variables
     eng.prove("whole.emitted_equations_imply_connection_set_equations", z3.Implies(E, R), **info)
     eng.prove("whole.connection_set_equations_imply_emitted_equations", z3.Implies(R, E), **info)
@@ -228,6 +230,23 @@ def h_whole_sequences(eng):
     if lonely:
         eng.cover("whole.unconnected_connector")
     run_graph(eng, "seq%d" % n, [c for c in CONNS if c in used], clauses, inner, lonely)
+
+
+# one connector seen from both sides: as an outside connector in the connect clauses of its own component (flag False) and as an
+# inside connector in the enclosing model (flag True) -- two different connection sets that contain "the same" variable
+HIERARCHICAL = [
+    ("wire-up-first", ["a.up", "a.down", "s.p"], [("a.up", "a.down", False, False), ("a.up", "s.p", True, True)]),
+    ("wire-system-first", ["a.up", "a.down", "s.p"], [("a.up", "s.p", True, True), ("a.up", "a.down", False, False)]),
+    ("wire-both-ends", ["a.up", "a.down", "s.p", "t.p"], [("a.up", "a.down", False, False), ("s.p", "a.up", True, True), ("a.down", "t.p", True, True)]),
+    ("star-merge-outside", ["a.up", "a.down", "b.up", "s.p"], [("a.up", "a.down", False, False), ("a.up", "s.p", True, True), ("b.up", "s.p", True, True), ("b.up", "a.down", False, False)]),
+]
+
+
+def h_whole_hierarchical(eng):
+    label, conns, clauses = HIERARCHICAL[eng.choice(len(HIERARCHICAL))]
+    eng.input("graph", label)
+    eng.cover("hier." + label)
+    run_graph(eng, label, conns, clauses, {c: True for c in conns}, ["z.p"])
 
 
 def h_whole_curated(eng):
@@ -463,21 +482,116 @@ def h_inside_flag(eng):
                   left=flat.fields.get("__left_inner"), right=flat.fields.get("__right_inner"))
 
 
+# ------------------------------------------------------------------------------------------------ arrays of connectors
+ARRAY_GRAPHS = [
+    # label, array connectors (name -> dims), clauses over (name, subscripts)
+    ("grid-row-to-different-partners", {"grid": 2}, [(("grid", (1, 1)), ("a.p", ())), (("grid", (1, 2)), ("b.p", ()))]),
+    ("grid-rows-connected-pairwise", {"grid": 2}, [(("grid", (1, 1)), ("grid", (1, 2))), (("grid", (2, 1)), ("grid", (2, 2)))]),
+    ("grid-cross", {"grid": 2}, [(("grid", (1, 2)), ("grid", (2, 1))), (("grid", (2, 1)), ("c.p", ()))]),
+    ("vector-chain", {"v": 1}, [(("v", (1,)), ("v", (2,))), (("v", (2,)), ("v", (3,)))]),
+    ("vector-and-grid", {"v": 1, "grid": 2}, [(("v", (1,)), ("grid", (1, 1))), (("v", (2,)), ("grid", (1, 2))), (("v", (1,)), ("v", (3,)))]),
+    ("component-array-pins", {"rs.p": 1}, [(("rs.p", (1,)), ("rs.p", (2,))), (("rs.p", (3,)), ("a.p", ()))]),
+]
+
+
+def h_connector_arrays(eng):
+    """connect clauses over ELEMENTS of connector arrays (1-D and 2-D): every element is a connector of its own -- two elements are in
+    one connection set only if a chain of connect clauses links them; the emitted flow sums and potential equalities have exactly the
+    solutions of those sets (unconnected elements of an array are outside: the code states it cannot enumerate them)."""
+    label, arrays, clauses = ARRAY_GRAPHS[eng.choice(len(ARRAY_GRAPHS))]
+    pattern = eng.choice(2)
+    eng.input("graph", label)
+    A = setup(eng)
+    names = []
+    for (l, r) in clauses:
+        for nme, idx in (l, r):
+            if nme not in names:
+                names.append(nme)
+    inner = {n: (True if pattern == 0 else ("." in n)) for n in names}
+    eng.input("inside", inner)
+    node, ctype = build_node(A, names)
+    install_contracts(eng, A, ctype)
+
+    def ref(nme, idx):
+        if not idx:
+            return A.ref(nme)
+        return A.ref(nme, indices=VList([VList([A.prim(i) for i in idx])]))
+    eqs = []
+    for (ln, li), (rn, ri) in clauses:
+        c = A.new("ConnectClause", left=ref(ln, li), right=ref(rn, ri))
+        c.fields["__left_inner"], c.fields["__right_inner"] = inner[ln], inner[rn]
+        eqs.append(c)
+    node.fields["equations"] = VList(eqs)
+    eng.call(eng.find_function(TREE, "expand_connectors"), [node], {})
+    eng.cover("arrays." + label)
+    out = node.fields["equations"].items
+    sem = SemIdx()
+    try:
+        emitted = [sem.eq(e) for e in out]
+    except Unsupported as u:
+        eng.prove("arrays.emitted_equations_are_over_element_references", False, note=str(u))
+        return
+    # reference connection sets over (name, subscripts, inside flag)
+    parent = {}
+
+    def find(x):
+        parent.setdefault(x, x)
+        while parent[x] != x:
+            x = parent[x]
+        return x
+    for (ln, li), (rn, ri) in clauses:
+        a, b = find((ln, li, inner[ln])), find((rn, ri, inner[rn]))
+        if a != b:
+            parent[b] = a
+    sets = {}
+    for x in list(parent):
+        sets.setdefault(find(x), []).append(x)
+    want = []
+    for members in sets.values():
+        for v in POT:
+            f0 = members[0]
+            for m in members[1:]:
+                want.append(sem.var(f0[0] + "." + v, f0[1]) == sem.var(m[0] + "." + v, m[1]))
+        for fl in FLOW:
+            want.append(z3.Sum([sem.var(m[0] + "." + fl, m[1]) if m[2] else -sem.var(m[0] + "." + fl, m[1]) for m in members]) == 0)
+    # flows of whole arrays / scalars that no clause mentions are not emitted here; those of mentioned scalar connectors are all in sets
+    E, R = z3.And(emitted), z3.And(want)
+    eng.prove("arrays.emitted_equations_imply_connection_set_equations", z3.Implies(E, R), graph=label)
+    eng.prove("arrays.connection_set_equations_imply_emitted_equations", z3.Implies(R, E), graph=label)
+
+
+class SemIdx(Sem):
+    def var(self, name, idx=()):
+        key = name + ("[%s]" % ",".join(str(i) for i in idx) if idx else "")
+        return Sem.var(self, key)
+
+    def term(self, e):
+        if e.cls.name == "ComponentRef":
+            idx = []
+            for row in e.fields["indices"].items:
+                for i in (row.items if isinstance(row, VList) else row):
+                    if i is None:
+                        continue
+                    idx.append(i.fields["value"])
+            return self.var(e.fields["name"], tuple(idx))
+        return Sem.term(self, e)
+
+
 HARNESSES = [("flatten_symbols: inside/outside mark of connect clause ends", h_inside_flag),
              ("expand_connectors: all clause sequences up to 3 over 4 connectors", h_whole_sequences),
-             ("expand_connectors: curated graphs", h_whole_curated),
+             ("expand_connectors: curated graphs", h_whole_curated), ("expand_connectors: a connector connected from inside and from outside", h_whole_hierarchical),
              ("flow branch: merge step from every well-formed table", h_merge_step),
              ("flow-sum emission from every well-formed table", h_emission),
-             ("connector variable kinds", h_variable_kinds)]
+             ("connector variable kinds", h_variable_kinds), ("expand_connectors: elements of connector arrays", h_connector_arrays)]
 EXPECTED_COVER = {"whole.n1", "whole.n2", "whole.n3", "whole.unconnected_connector", "merge.step", "merge.two_existing_sets", "merge.redundant", "merge.new_set",
-                  "merge.self_connection", "merge.same_name_other_flag", "emit.step", "emit.all_outside", "kinds.potential", "kinds.flow", "kinds.skipped", "kinds.rejected", "flag.marked", "flag.fresh"} | {"curated." + c[0] for c in CURATED}
+                  "merge.self_connection", "merge.same_name_other_flag", "emit.step", "emit.all_outside", "kinds.potential", "kinds.flow", "kinds.skipped", "kinds.rejected", "flag.marked", "flag.fresh"} | {"curated." + c[0] for c in CURATED} | {"arrays." + g[0] for g in ARRAY_GRAPHS} | {"hier." + g[0] for g in HIERARCHICAL}
 BOUNDED = True
 LEVEL = "proof"
 TRUSTED = ["flatten_class(connector class) returns the connector's flat symbols with their prefixes (assumed contract; C07's subject)",
            "numpy.all over a list of Python booleans is their conjunction",
            "connector symbols carry __connector_type and connect clauses carry __left_inner/__right_inner as flatten_symbols sets them (tree.py 646-679): inside iff the reference had a component prefix where the clause was written"]
 ASSUMPTIONS = [
-    "scalar connectors: array-of-connector indices in connect clauses are outside the decided scope (the code itself notes it can lose unconnected elements of connector arrays)",
+    "arrays of connectors: six graphs over elements of 1-D / 2-D connector arrays and pins of component arrays are decided for the CONNECTED elements; unconnected elements of a connector array are outside the decided scope (the code itself notes it cannot enumerate them)",
     "the inductive merge step and the emission step are proved from every well-formed table over <= 4 (resp. <= 5) keys by executing the real fragment on each: unbounded in the number of clauses (induction), bounded in the number of distinct flow variables per table",
     "whole-function equivalences are per enumerated graph (all 1..3-clause sequences over four connectors and eight curated graphs), each for all real values of the variables (linear real arithmetic validity)",
     "a flow variable counts as connected once its connector appears in any connect clause, whichever side or flag (the statement's 'appears in no connection')",
